@@ -27,7 +27,7 @@ P = {
         "overlay": dict(ASSEMBLY_OVERLAY, **{"internal/zzverif/c13/c13_test.go": "c13/c13_test.go"}),
         "eval_module": "Run.Eval_C13", "check_term": "check_repo",
         "n_quick": 1200, "n_thorough": 24000,
-        "findings": {3: "C13-F3b", 5: "C13-F5", 8: "C13-F8"},
+        "findings": {3: "C13-F3b", 5: "C13-F5", 8: "C13-F8", 9: "C13-F9"},
         "shard": 100,
     }],
     "rule": "per group of 40 cases one generated rule set of 4-7 rules (path expressions /rK/lit, /rK/:name, /rK/:a/x/:b, /rK/**, "
